@@ -595,6 +595,29 @@ def callback_scenarios():
         out.append(('C05', 'entities scheduled for deletion survive six frames', 'never-deleted'))
     if not w.entity_exists(keep):
         out.append(('C01', 'an unrelated entity disappeared', 'fragile-bystander'))
+    # replacing the only component of an entity awaiting deletion while its on_remove fails:
+    # whatever is left, the next frames do not fail on a mark of an entity that is gone
+    @desper.event_handler('on_remove')
+    class Brittle:
+        def on_remove(self, entity, world):
+            raise RuntimeError('on_remove failed')
+    w2 = desper.World()
+    e2 = w2.create_entity(Brittle())
+    w2.delete_entity(e2)
+    try:
+        w2.add_component(e2, Brittle())
+    except RuntimeError:
+        pass
+    for frame in range(3):
+        try:
+            w2.process(1)
+        except RuntimeError:
+            pass
+        except KeyError as ex:
+            out.append(('C05', 'process() raised KeyError(%s) in frame %d: a failed add_component left a '
+                               'deletion mark for an entity that no longer exists' % (ex, frame),
+                        'mark-of-a-vanished-entity'))
+            break
     return out
 
 
